@@ -3,6 +3,7 @@ package main
 // C16 — protocol configuration options and PDU session bitmaps.
 
 import (
+	"strings"
 	"fmt"
 	"go/token"
 	"go/types"
@@ -138,6 +139,7 @@ func propC16(w *World, r *Report, tier string) {
 	r.Fn(FuncName(fm))
 	// ---- UnMarshal at concrete unit layouts (values, order and non-aliasing decided by evaluation)
 	shapesOK := checkPcoShapes(w, r, fu)
+	marshalOK := checkPcoMarshalShapes(w, r, fm)
 	{
 		// the first write to the output buffer is one octet with the constant value 0x80 (E3)
 		fn := w.SSAFunc(fm)
@@ -165,7 +167,12 @@ func propC16(w *World, r *Report, tier string) {
 				}
 			}
 		}
-		if !ok {
+		if !ok && marshalOK && detail == "no modelled output buffer" {
+			// Marshal does not write through a bytes.Buffer: the write log has nothing to show; the
+			// octets themselves were compared by pco.marshal (octet 0 is 0x80 at every layout)
+			r.OK("pco.first-octet")
+			r.Note("pco.first-octet: no bytes.Buffer in Marshal; decided by pco.marshal")
+		} else if !ok {
 			r.Fail("pco.first-octet", FuncName(fm), "0x80", fm.Pos(), "the first octet written is not provably the constant 0x80 (extension 1, configuration protocol 000): "+detail, nil)
 		} else {
 			r.OK("pco.first-octet")
@@ -177,7 +184,12 @@ func propC16(w *World, r *Report, tier string) {
 		a, b := fieldSeq(w.SSAFunc(fm), true), fieldSeq(w.SSAFunc(fu), false)
 		want := "ProtocolOrContainerID,LengthOfContents,Contents"
 		ja, jb := joinStr(a), joinStr(b)
-		if ja == want && jb == "" && shapesOK {
+		if (ja == want || (ja == "" && marshalOK)) && (jb == want || (jb == "" && shapesOK)) && (ja == "" || jb == "") {
+			// one side (or both) is not written as binary.Write / binary.Read calls field by field:
+			// the call-shape rule has nothing to compare there; pco.marshal / pco.units decide it
+			r.OK("seq.dual")
+			r.Note("seq.dual: Marshal/UnMarshal not in field-by-field binary.Write/Read style (%q / %q); decided by pco.marshal / pco.units", ja, jb)
+		} else if ja == want && jb == "" && shapesOK {
 			// UnMarshal is not written as binary.Read calls field by field: the call-shape rule has
 			// nothing to compare on its side; pco.units has decided it by evaluation
 			r.OK("seq.dual")
@@ -367,6 +379,27 @@ func seedIOErrors(it *Interp, st *state) {
 }
 
 // readerModels: bytes.NewReader and binary.Read on a reader at a concrete position (E2).
+// zeroBuffer: a bytes.Buffer / bytes.Reader that was not made by a modelled constructor
+// (`new(bytes.Buffer)`, `var b bytes.Buffer`) is the empty buffer: give it the model's cells on first use.
+func zeroBuffer(it *Interp, st *state, o *MemObj) {
+	if o == nil {
+		return
+	}
+	if st.mem[o] == nil {
+		st.mem[o] = map[string]Value{}
+	}
+	if _, has := st.mem[o][".data"]; has {
+		return
+	}
+	if !strings.HasPrefix(o.Name, "alloc") {
+		return // only objects this run allocated itself are known to be empty
+	}
+	bk := it.NewObj(fmt.Sprintf("bufdata%d", it.nobj+1), false)
+	st.mem[bk] = map[string]Value{}
+	st.mem[o][".data"] = SliceV{Obj: bk, Len: 0}
+	st.mem[o][".pos"] = it.constBV(0, 64)
+}
+
 func readerModels(it *Interp) {
 	it.Models["bytes.NewReader"] = func(it *Interp, st *state, call *ssa.CallCommon, args []Value) (Value, bool) {
 		sl, ok := args[0].(SliceV)
@@ -396,6 +429,7 @@ func readerModels(it *Interp) {
 		return Ptr{Obj: o}, true
 	}
 	bufWrite := func(it *Interp, st *state, bp Ptr, bs []BV) bool {
+		zeroBuffer(it, st, bp.Obj)
 		data, ok := st.mem[bp.Obj][".data"].(SliceV)
 		if !ok || data.Len < 0 || data.Len+len(bs) > 4096 {
 			return false
@@ -412,6 +446,7 @@ func readerModels(it *Interp) {
 		if !ok {
 			return nil, false
 		}
+		zeroBuffer(it, st, bp.Obj)
 		data, ok1 := st.mem[bp.Obj][".data"].(SliceV)
 		pos, ok2 := it.concreteInt(st.mem[bp.Obj][".pos"])
 		if !ok1 || !ok2 {
@@ -475,6 +510,24 @@ func readerModels(it *Interp) {
 			if !ok {
 				return nil, false
 			}
+			if sl, isSl := pt.Elem().Underlying().(*types.Slice); isSl {
+				// a pointer to an octet string: its elements, as binary.Write emits them
+				if b, isB := sl.Elem().Underlying().(*types.Basic); !isB || b.Kind() != types.Uint8 {
+					return nil, false
+				}
+				sv, okS := it.load(st, v, pt.Elem()).(SliceV)
+				if !okS || sv.Len < 0 {
+					return nil, false
+				}
+				for i := 0; i < sv.Len; i++ {
+					b, ok := it.load(st, it.sliceElemPtr(sv, i), u8T).(BV)
+					if !ok {
+						return nil, false
+					}
+					bs = append(bs, b)
+				}
+				break
+			}
 			lv, ok := it.load(st, v, pt.Elem()).(BV)
 			if !ok || !split(lv) {
 				return nil, false
@@ -536,6 +589,7 @@ func readerModels(it *Interp) {
 		if !ok {
 			return nil, false
 		}
+		zeroBuffer(it, st, rp.Obj)
 		data, ok1 := st.mem[rp.Obj][".data"].(SliceV)
 		pos, ok2 := it.concreteInt(st.mem[rp.Obj][".pos"])
 		if !ok1 || !ok2 {
@@ -556,6 +610,7 @@ func readerModels(it *Interp) {
 		if !ok {
 			return nil, false
 		}
+		zeroBuffer(it, st, rp.Obj)
 		data, ok1 := st.mem[rp.Obj][".data"].(SliceV)
 		pos, ok2 := it.concreteInt(st.mem[rp.Obj][".pos"])
 		n, ok3 := it.concreteInt(args[1])
@@ -573,6 +628,7 @@ func readerModels(it *Interp) {
 		if !ok {
 			return nil, false
 		}
+		zeroBuffer(it, st, rp.Obj)
 		data, ok1 := st.mem[rp.Obj][".data"].(SliceV)
 		pos, ok2 := it.concreteInt(st.mem[rp.Obj][".pos"])
 		if !ok1 || !ok2 {
@@ -585,6 +641,7 @@ func readerModels(it *Interp) {
 		if !ok {
 			return nil, false
 		}
+		zeroBuffer(it, st, rp.Obj)
 		data, ok1 := st.mem[rp.Obj][".data"].(SliceV)
 		pos, ok2 := it.concreteInt(st.mem[rp.Obj][".pos"])
 		if !ok1 || !ok2 {
@@ -775,5 +832,72 @@ func checkPcoShapes(w *World, r *Report, fu *types.Func) bool {
 		}
 	}
 	r.Expect("pco.units", 8)
+	return all
+}
+
+
+// checkPcoMarshalShapes (pco.marshal): Marshal evaluated (E2) on lists of units with symbolic
+// identifiers, length octets and contents (contents at concrete lengths) writes 0x80 and then,
+// for each unit in order, identifier (2 octets, big endian), the stored length octet and the
+// contents — whatever the style it is written in.
+func checkPcoMarshalShapes(w *World, r *Report, fm *types.Func) bool {
+	fn := w.SSAFunc(fm)
+	fname := FuncName(fm)
+	all := true
+	for _, shape := range [][]int{{}, {0}, {3}, {0, 0}, {2, 0}, {1, 5, 0}} {
+		r.Site("pco.marshal")
+		it := NewInterp(w)
+		it.Fuel = 100000
+		readerModels(it)
+		st := it.NewState()
+		ro, recv := it.SymbolicObj("pco")
+		lo := it.NewObj("list", false)
+		st.mem[lo] = map[string]Value{}
+		var want []BV
+		want = append(want, it.constBV(0x80, 8))
+		for i, l := range shape {
+			uo := it.NewObj(fmt.Sprintf("unit%d", i), false)
+			id := it.SrcBV(fmt.Sprintf("unit%d.id", i), 16)
+			ln := it.SrcBV(fmt.Sprintf("unit%d.len", i), 8)
+			co := it.NewObj(fmt.Sprintf("unit%d.contents", i), true)
+			st.mem[co] = map[string]Value{}
+			st.mem[uo] = map[string]Value{".ProtocolOrContainerID": id, ".LengthOfContents": ln, ".Contents": SliceV{Obj: co, Len: l}}
+			st.mem[lo][fmt.Sprintf("[%d]", i)] = Ptr{Obj: uo}
+			want = append(want, bvBits(id, 8, 8), bvBits(id, 0, 8), ln)
+			for k := 0; k < l; k++ {
+				want = append(want, it.SrcBV(fmt.Sprintf("unit%d.contents[%d]", i, k), 8))
+			}
+		}
+		st.mem[ro] = map[string]Value{".ProtocolOrContainerList": SliceV{Obj: lo, Len: len(shape)}}
+		res := it.Call(fn, []Value{recv}, st, 0)
+		what := fmt.Sprintf("unit content lengths %v", shape)
+		good, why := true, ""
+		got, okB := sliceBytes(it, st, res)
+		switch {
+		case len(it.Unsup) > 0:
+			good, why = false, fmt.Sprintf("undecided: %v", it.Unsup)
+		case !okB:
+			good, why = false, "result not resolvable"
+		case len(got) != len(want):
+			good, why = false, fmt.Sprintf("%d octets written, the layout has %d", len(got), len(want))
+		}
+		for k := 0; good && k < len(want); k++ {
+			if ok, m := sameBV(it, got[k], want[k]); !ok {
+				good, why = false, fmt.Sprintf("octet %d: %s", k, m)
+			}
+		}
+		for wk := range it.Writes {
+			if good && (strings.HasPrefix(wk, "pco") || strings.HasPrefix(wk, "unit") || strings.HasPrefix(wk, "list")) {
+				good, why = false, "Marshal writes "+wk
+			}
+		}
+		if good {
+			r.OK("pco.marshal")
+		} else {
+			all = false
+			r.Fail("pco.marshal", fname, what, fm.Pos(), "Marshal does not write 0x80 followed by identifier, length octet and contents of every unit ("+what+"): "+why, nil)
+		}
+	}
+	r.Expect("pco.marshal", 6)
 	return all
 }
